@@ -140,7 +140,7 @@ theorem kMux_described : DescribedP2 (PDesc.ofValue "m" none (DDesc.mux kMux.toD
   · simp [MuxShape.toDesc, kMux, MuxDesc.keyObj, MuxDesc.layout, MuxLayout.keyObj, Obj.ok, Obj.encOk, Obj.sizeOk]
 
 theorem kSf_described : DescribedP2 kSf :=
-  DescribedP2.staticField "sf" none 2 6 kSfItem (pforall2 _ _ (described_lv _ kObjs_ok.2.2.2.1) kMux_described)
+  DescribedP2.staticField "sf" none 2 6 none kSfItem (pforall2 _ _ (described_lv _ kObjs_ok.2.2.2.1) kMux_described)
     (pnamesOk2 _ _ (by decide)) rfl
 
 theorem kSt_described : DescribedP2 kSt := by
@@ -161,7 +161,7 @@ theorem kSt_described : DescribedP2 kSt := by
       decide
 
 theorem kRec_described : DescribedP2 kRec :=
-  DescribedP2.eopField "rec" none none none [lv oB1] (pforall1 _ (described_lv _ kObjs_ok.2.2.2.2.2.2.2)) (pnamesOk1 _) rfl
+  DescribedP2.eopField "rec" none none none none [lv oB1] (pforall1 _ (described_lv _ kObjs_ok.2.2.2.2.2.2.2)) (pnamesOk1 _) rfl
     (Nat.le_refl 1)
 
 theorem kDesc_described : ∀ p ∈ kDesc, DescribedP2 p := by
@@ -282,6 +282,63 @@ example : ∃ cursor, decodeMessage none (PDescs.toParams kDesc) kPdu true = .ok
     subst hp
     cases hkvs
     obtain ⟨cursor, hdec⟩ := hrt hw (fun _ => by decide +kernel)
+    exact ⟨cursor, hdec⟩
+
+/-! ## non-vacuity, STRUCTURE with BYTE-SIZE (content too long: `EncodeError` since fix f0ce27d)
+    request = [ sid; bsx : STRUCTURE BYTE-SIZE 6 { n; df : DYNAMIC-LENGTH-FIELD (count u8, offset 1) of items
+                { b : A_BYTEFIELD (1 byte) } with BYTE-SIZE 2 }; tail ] — 0, 1, 2 items fit (2 + 2·items ≤ 6), 3 do not -/
+def bInner : PDesc :=
+  PDesc.ofValue "df" none (DDesc.dynLenField { offset := 1, cntBp := 0, cnt := ⟨"", none, none, none, true, 8, .uint32⟩ }
+    (DDesc.structO (some 2) [lv oB1]))
+def bBs : PDesc := PDesc.ofValue "bsx" none (DDesc.structBS 6 [pu8 "n", bInner])
+def bDesc : List PDesc := [PDesc.ofObjConst ⟨"sid", none, none, none, true, 8, .uint32⟩ (.int 0x2E), bBs, pu8 "tail"]
+def bMk (items : List PVal) : PVal := .dict [("bsx", .dict [("n", .atom (.int 7)), ("df", .list items)]), ("tail", .atom (.int 0x99))]
+def bIt (b : Nat) : PVal := .dict [("b", .atom (.bytes [b]))]
+
+theorem described_pu8' (n : String) : DescribedP2 (pu8 n) :=
+  DescribedP2.of_value_int _ (by simp [Obj.ok, Obj.encOk, Obj.sizeOk]) (Or.inr rfl)
+
+theorem bDesc_described : ∀ p ∈ bDesc, DescribedP2 p := by
+  intro g hg
+  simp only [bDesc, List.mem_cons, List.mem_nil_iff, or_false] at hg
+  rcases hg with rfl | rfl | rfl
+  · exact DescribedP2.const _ _ (by simp [Obj.ok, Obj.encOk, Obj.sizeOk]) (by simp [Obj.inRange])
+  · refine DescribedP2.structBS "bsx" none 6 _ (pforall2 _ _ (described_pu8' _) ?_) (pnamesOk2 _ _ (by decide)) rfl
+    exact DescribedP2.dynLenField "df" none _ (some 2) [lv oB1] (pforall1 _ (described_lv _ kObjs_ok.2.2.2.2.2.2.2)) (pnamesOk1 _) rfl
+      (by decide) (by simp [DynLayout.cntObj, Obj.ok, Obj.encOk, Obj.sizeOk]) (Or.inr rfl) (by decide)
+  · exact described_pu8' _
+
+theorem bDesc_names : PDescs.namesOk bDesc ∧ PDescs.eopLast bDesc := by
+  refine ⟨?_, ⟨rfl, rfl, trivial⟩⟩
+  simp [PDescs.namesOk, bDesc, PDesc.name, Param.name, PDesc.ofObjConst, Obj.toConstParam, bBs, PDesc.ofValue, pu8,
+    PDesc.ofObjValue, Obj.toParam]
+
+/-- accepted: the content is padded to BYTE-SIZE (items to 2 bytes, the structure to 6) -/
+example : [bMk [], bMk [bIt 0xA1], bMk [bIt 0xA1, bIt 0xA2]].map (fun p =>
+      (p.wfAtoms && p.typedForP bDesc && p.acceptedByP bDesc, (encodeMessage none (PDescs.toParams bDesc) p none true).toOption)) =
+    [(true, some ([0x2E, 7, 0, 0, 0, 0, 0, 0x99], 0)), (true, some ([0x2E, 7, 1, 0xA1, 0, 0, 0, 0x99], 0)),
+     (true, some ([0x2E, 7, 2, 0xA1, 0, 0xA2, 0, 0x99], 0))] := by decide +kernel
+/-- rejected: three items end 8 bytes behind the first byte of a structure of BYTE-SIZE 6 -/
+example : let p := bMk [bIt 0xA1, bIt 0xA2, bIt 0xA3]
+    p.wfAtoms = true ∧ p.typedForP bDesc = true ∧ p.acceptedByP bDesc = false ∧ p.needFor bDesc ≤ modelFuel ∧
+    errClass (encodeMessage none (PDescs.toParams bDesc) p none true) = some .encode := by decide +kernel
+/-- the theorem applies: the PDU of the one-item value decodes to its completion -/
+example : ∃ cursor, decodeMessage none (PDescs.toParams bDesc) [0x2E, 7, 1, 0xA1, 0, 0, 0, 0x99] true =
+    .ok (.dict (PDescs.complete bDesc [("bsx", .dict [("n", .atom (.int 7)), ("df", .list [bIt 0xA1])]), ("tail", .atom (.int 0x99))]),
+      cursor) := by
+  rcases C04_nested bDesc bDesc_described bDesc_names.1 bDesc_names.2 (bMk [bIt 0xA1]) (by decide +kernel) none (by decide +kernel)
+    (by decide +kernel) with ⟨e, he, _⟩ | ⟨kvs, pdu, w, hkvs, _, henc, hrt⟩
+  · have : (encodeMessage none (PDescs.toParams bDesc) (bMk [bIt 0xA1]) none true).toOption = none := by rw [he]; rfl
+    exact absurd this (by decide +kernel)
+  · have h2 : (encodeMessage none (PDescs.toParams bDesc) (bMk [bIt 0xA1]) none true).toOption = some (pdu, w) := by rw [henc]; rfl
+    have h4 : (encodeMessage none (PDescs.toParams bDesc) (bMk [bIt 0xA1]) none true).toOption
+        = some ([0x2E, 7, 1, 0xA1, 0, 0, 0, 0x99], 0) := by decide +kernel
+    rw [h2] at h4
+    simp only [Option.some.injEq, Prod.mk.injEq] at h4
+    obtain ⟨hp, hw⟩ := h4
+    subst hp
+    cases hkvs
+    obtain ⟨cursor, hdec⟩ := hrt hw (fun h => by cases h)
     exact ⟨cursor, hdec⟩
 
 end OdxVerif.Codec
